@@ -163,7 +163,36 @@ pub fn profile() -> Profile {
 
 pub fn strategy() -> proptest::strategy::BoxedStrategy<History> {
     use proptest::prelude::*;
-    crate::checks::c12::v5_cfg().prop_flat_map(|cfg| history_for(profile(), cfg, no_hostile())).boxed()
+    (crate::checks::c12::v5_cfg().prop_flat_map(|cfg| history_for(profile(), cfg, no_hostile())), any::<u16>())
+        .prop_map(|(mut h, r)| {
+            // resume path: in a third of the histories the limit announced by the peer at a LATER handshake is placed around
+            // the size of an acknowledgement with properties (a PUBREL that may be stored by then) sent on an earlier connection
+            if r % 3 == 0 {
+                let idw = h.cfg.idw;
+                let mut seen: Option<usize> = None;
+                for op in h.ops.iter_mut() {
+                    match op {
+                        Op::Ack { kind, rc, .. } if *rc >= 16 && (*kind == AckKind::Pubrel || r % 2 == 0) => {
+                            seen = Some(refcodec::encode(&ack_ap(V::V5, *kind, 1, *rc), idw).len());
+                        }
+                        // the limit for what this object sends is announced by the peer: CONNACK for a client, CONNECT for a server
+                        Op::PeerConnack(a) => {
+                            if let Some(sz) = seen {
+                                a.p.mps = Some((sz as i64 + [0i64, -1, 1, -2][(r as usize / 6) % 4]).max(1) as u32);
+                            }
+                        }
+                        Op::PeerConnect(a) => {
+                            if let Some(sz) = seen {
+                                a.p.mps = Some((sz as i64 + [0i64, -1, 1, -2][(r as usize / 6) % 4]).max(1) as u32);
+                            }
+                        }
+                        _ => {}
+                    }
+                }
+            }
+            h
+        })
+        .boxed()
 }
 
 pub fn test(h: &History, st: &mut Stats) -> R {
